@@ -6,6 +6,7 @@ import (
 	"fmt"
 	"os"
 	"os/exec"
+	"sort"
 	"strings"
 	"sync"
 	"sync/atomic"
@@ -435,6 +436,75 @@ func runC06(res *Result, tier string, seed int64, replay string) {
 		for _, inner := range []string{"", "T", "<mj-text>T</mj-text>"} {
 			src := "<" + tag + ">" + inner + "</" + tag + ">"
 			run("root", tag+"/"+short(inner, 8), src, true)
+		}
+	}
+	// ---- every element under every parent (valid XML, nesting MJML does not allow): must not panic ---------------------------
+	{
+		full := map[string]string{
+			"mj-accordion-element": `<mj-accordion-element><mj-accordion-title>Q</mj-accordion-title><mj-accordion-text>A</mj-accordion-text></mj-accordion-element>`,
+			"mj-accordion":         `<mj-accordion><mj-accordion-element><mj-accordion-title>Q</mj-accordion-title><mj-accordion-text>A</mj-accordion-text></mj-accordion-element></mj-accordion>`,
+			"mj-accordion-title":   `<mj-accordion-title>Q</mj-accordion-title>`,
+			"mj-accordion-text":    `<mj-accordion-text>A</mj-accordion-text>`,
+			"mj-carousel":          `<mj-carousel><mj-carousel-image src="a.png"/><mj-carousel-image src="b.png"/></mj-carousel>`,
+			"mj-carousel-image":    `<mj-carousel-image src="a.png"/>`,
+			"mj-navbar":            `<mj-navbar><mj-navbar-link href="/a">A</mj-navbar-link></mj-navbar>`,
+			"mj-navbar-link":       `<mj-navbar-link href="/a">A</mj-navbar-link>`,
+			"mj-social":            `<mj-social><mj-social-element name="facebook" href="h">F</mj-social-element></mj-social>`,
+			"mj-social-element":    `<mj-social-element name="facebook" href="h">F</mj-social-element>`,
+			"mj-section":           `<mj-section><mj-column><mj-text>T</mj-text></mj-column></mj-section>`,
+			"mj-column":            `<mj-column><mj-text>T</mj-text></mj-column>`,
+			"mj-group":             `<mj-group><mj-column><mj-text>T</mj-text></mj-column></mj-group>`,
+			"mj-wrapper":           `<mj-wrapper><mj-section><mj-column><mj-text>T</mj-text></mj-column></mj-section></mj-wrapper>`,
+			"mj-hero":              `<mj-hero><mj-text>T</mj-text></mj-hero>`,
+			"mj-text":              `<mj-text>T</mj-text>`,
+			"mj-button":            `<mj-button href="u">B</mj-button>`,
+			"mj-image":             `<mj-image src="i.png"/>`,
+			"mj-divider":           `<mj-divider/>`,
+			"mj-spacer":            `<mj-spacer/>`,
+			"mj-table":             `<mj-table><tr><td>c</td></tr></mj-table>`,
+			"mj-raw":               `<mj-raw><p>r</p></mj-raw>`,
+			"mj-head":              `<mj-head><mj-title>t</mj-title></mj-head>`,
+			"mj-body":              `<mj-body><mj-section><mj-column><mj-text>T</mj-text></mj-column></mj-section></mj-body>`,
+			"mj-attributes":        `<mj-attributes><mj-all color="red"/></mj-attributes>`,
+			"mj-style":             `<mj-style>.a{color:red}</mj-style>`,
+			"mj-font":              `<mj-font name="F" href="http://x/f.css"/>`,
+			"mj-title":             `<mj-title>t</mj-title>`,
+			"mj-preview":           `<mj-preview>p</mj-preview>`,
+			"mj-breakpoint":        `<mj-breakpoint width="300px"/>`,
+		}
+		parents := map[string][2]string{
+			"mj-body":              {`<mjml><mj-body>`, `</mj-body></mjml>`},
+			"mj-section":           {`<mjml><mj-body><mj-section>`, `</mj-section></mj-body></mjml>`},
+			"mj-column":            {`<mjml><mj-body><mj-section><mj-column>`, `</mj-column></mj-section></mj-body></mjml>`},
+			"mj-group":             {`<mjml><mj-body><mj-section><mj-group>`, `</mj-group></mj-section></mj-body></mjml>`},
+			"mj-group-column":      {`<mjml><mj-body><mj-section><mj-group><mj-column>`, `</mj-column></mj-group></mj-section></mj-body></mjml>`},
+			"mj-wrapper":           {`<mjml><mj-body><mj-wrapper>`, `</mj-wrapper></mj-body></mjml>`},
+			"mj-hero":              {`<mjml><mj-body><mj-hero>`, `</mj-hero></mj-body></mjml>`},
+			"mj-accordion":         {`<mjml><mj-body><mj-section><mj-column><mj-accordion>`, `</mj-accordion></mj-column></mj-section></mj-body></mjml>`},
+			"mj-accordion-element": {`<mjml><mj-body><mj-section><mj-column><mj-accordion><mj-accordion-element>`, `</mj-accordion-element></mj-accordion></mj-column></mj-section></mj-body></mjml>`},
+			"mj-navbar":            {`<mjml><mj-body><mj-section><mj-column><mj-navbar>`, `</mj-navbar></mj-column></mj-section></mj-body></mjml>`},
+			"mj-social":            {`<mjml><mj-body><mj-section><mj-column><mj-social>`, `</mj-social></mj-column></mj-section></mj-body></mjml>`},
+			"mj-carousel":          {`<mjml><mj-body><mj-section><mj-column><mj-carousel><mj-carousel-image src="z.png"/>`, `</mj-carousel></mj-column></mj-section></mj-body></mjml>`},
+			"mj-head":              {`<mjml><mj-head>`, `</mj-head><mj-body><mj-section><mj-column><mj-text>T</mj-text></mj-column></mj-section></mj-body></mjml>`},
+			"mj-attributes":        {`<mjml><mj-head><mj-attributes>`, `</mj-attributes></mj-head><mj-body><mj-section><mj-column><mj-text>T</mj-text></mj-column></mj-section></mj-body></mjml>`},
+			"mjml":                 {`<mjml>`, `</mjml>`},
+		}
+		var pnames, cnames []string
+		for p := range parents {
+			pnames = append(pnames, p)
+		}
+		for c := range full {
+			cnames = append(cnames, c)
+		}
+		sort.Strings(pnames)
+		sort.Strings(cnames)
+		for _, p := range pnames {
+			for _, c := range cnames {
+				src := parents[p][0] + full[c] + parents[p][1]
+				run("misplaced", c+"-in-"+p, src, true)
+				// twice: a second child of the same kind
+				run("misplaced", c+"x2-in-"+p, parents[p][0]+full[c]+full[c]+parents[p][1], true)
+			}
 		}
 	}
 	// ---- byte fuzz ---------------------------------------------------------------------------------------------------
